@@ -49,7 +49,26 @@ ATTACK = ['<script>alert(1)</script>', '"><img src=x onerror=alert(1)>', "' onmo
 DOLLAR = ['${detail}', '$detail', '$$', '$', '${', '${br}', '$x', '${status}', '${body}', '$body', '${html_comment}', '${explanation}',
           '$$$', '${detail', '$}', '${}', '$1', '${REQUEST_METHOD}', '$comment', '$_', '$ſ', '${K}', '$é']
 NONASCII = ['\u00e9', '\u65e5\u672c', '\U0001f600', '\u017f', '\u212a', '\u2028', '\uffff', '\U0010ffff', '\x80', '\x7f', '\u0130', '\U00010000', '\ud7ff', '\ue000']
-CONTROL = ['\n', '\r', '\t', '\x00', '\x08', '\x0c', '\x1b', '\x1f', '\r\n']
+CONTROL = ['\n', '\r', '\t', '\x00', '\x08', '\x0c', '\x1b', '\x1f', '\r\n', '\x0b', '\x85', '\u2029', '\x00\x00']
+# lone surrogates: a Python str can hold them (json.loads('"\\ud83d"'), os.fsdecode, surrogateescape); Lean's Char cannot, so
+# such cases are checked by the oracle only.  high, low, reversed pair, a pair given as two code points, with text around
+SURROGATES = ['\ud83d', '\ude00', '\ude00\ud83d', '\ud83d\ude00', 'bob\ud83d', '\udc80x', '<\udfff>', '$\ud800{detail}']
+
+
+def has_surrogate(x):
+    if isinstance(x, str):
+        return any(0xD800 <= ord(c) <= 0xDFFF for c in x)
+    if isinstance(x, dict):
+        return any(has_surrogate(k) or has_surrogate(v) for k, v in x.items())
+    if isinstance(x, (list, tuple)):
+        return any(has_surrogate(v) for v in x)
+    return False
+
+
+def units(t):
+    """UTF-16 code units: the level at which a JSON string carries text"""
+    return t.encode('utf-16-le', 'surrogatepass')
+
 JSONISH = ['\\', '\\u0041', '\\"', '/', '"}', '{"message": "x"}', '\\n']
 WORDS = ['not found', 'x', 'abc', '/a/b', 'index.html', 'The thing', '42', 'a b', 'id=1', 'q?x=1&y=2', '']
 
@@ -77,7 +96,9 @@ def rand_text(rng, p_empty=0.05):
     parts = []
     for _ in range(n):
         k = rng.random()
-        if k < 0.3:
+        if k < 0.015:
+            parts.append(rng.choice(SURROGATES))
+        elif k < 0.3:
             parts.append(rng.choice(ATTACK))
         elif k < 0.5:
             parts.append(rng.choice(DOLLAR))
@@ -157,7 +178,8 @@ def gen_case(rng, i=0):
     mode = 'prepare' if r < 0.45 else 'wsgi' if r < 0.7 else 'router_404' if r < 0.8 else 'router_raise' if r < 0.93 else 'twice'
     case = {'mode': mode, 'accept': rand_accept(rng)}
     if mode == 'router_404':
-        segs = [rand_text(rng, 0.1) for _ in range(rng.choice([0, 1, 1, 2, 3]))]
+        # PATH_INFO is bytes decoded strictly as UTF-8 by the request: it cannot carry a lone surrogate
+        segs = [''.join(c for c in rand_text(rng, 0.1) if not 0xD800 <= ord(c) <= 0xDFFF) for _ in range(rng.choice([0, 1, 1, 2, 3]))]
         case['path'] = '/' + '/'.join(segs) if rng.random() < 0.95 else ''.join(segs)
         return case
     k = rng.random()
@@ -197,7 +219,7 @@ def gen_case(rng, i=0):
             continue
         val = rand_text(rng)
         if mode in ('wsgi', 'router_raise'):
-            val = val.encode('utf-8').decode('latin-1')      # a WSGI server hands over bytes as latin-1 text
+            val = val.encode('utf-8', 'ignore').decode('latin-1')      # a WSGI server hands over bytes as latin-1 text
         env.append([key, val])
     case['environ'] = env
     if mode == 'twice':
@@ -879,6 +901,13 @@ def check_property(case, obs, hct=None):
     eff = eff_accept(case, obs)
     obs = {k: v for k, v in obs.items() if k != 'eff_accept'}
     sk = {k: v for k, v in sk.items() if k != 'eff_accept'}
+    if obs['r'] == 'raised' and obs.get('type') == 'UnicodeEncodeError' and sk['r'] == 'ok' and (
+            (sk.get('ctype') == 'text/plain' and any(has_surrogate(t) for _, t, raw in toks if not raw))
+            or (sk.get('ctype') == 'text/html' and any(has_surrogate(t) for _, t, raw in toks if raw))):
+        # carried outcome (see notes, "lone surrogates"): the page is UTF-8 and UTF-8 cannot represent a lone surrogate, so no
+        # plain-text body can contain such a text verbatim (nor an HTML body the verbatim __html__() of a markup object that
+        # holds one); the unchanged code refuses with UnicodeEncodeError
+        return None
     if obs['r'] != 'ok' or sk['r'] != 'ok':
         if obs == sk:
             return None      # same failure with inert text: a template problem, not caused by the supplied text
@@ -913,7 +942,11 @@ def check_property(case, obs, hct=None):
         if not isinstance(got, dict) or (not custom_fmt and not isinstance(got.get('message'), str)):
             return {'case': case, 'impl': {'body': body}, 'expected': 'object with a string message', 'detail': 'JSON body has no message'}
         exp = {k: (replace_all(v, toks, lambda t: t) if isinstance(v, str) else v) for k, v in skj.items()}
-        if got != exp:
+        # exact comparison at the level a JSON string carries text: UTF-16 code units (so a lone surrogate must come back
+        # as that surrogate, and a pair given as two code points may come back as the one astral character)
+        same = set(got) == set(exp) and all((units(got[k]) == units(exp[k])) if isinstance(exp[k], str) and isinstance(got[k], str) else got[k] == exp[k]
+                                            for k in exp)
+        if not same:
             return {'case': case, 'impl': got, 'expected': exp, 'detail': 'JSON message does not contain the supplied text verbatim'}
         return None
     exp = replace_all(sk['body'], toks, lambda t: t)
@@ -950,8 +983,10 @@ def valid_case(case):
     if not isinstance(case, dict) or case.get('mode') not in ('prepare', 'wsgi', 'router_404', 'router_raise', 'twice', 'router_app'):
         return False
     if case['mode'] == 'router_404':
-        return isinstance(case.get('path'), str)
+        return isinstance(case.get('path'), str) and not has_surrogate(case['path'])
     if case['mode'] == 'router_app':
+        if has_surrogate([case.get(k) for k in ('extra', 'query', 'host', 'origin')]):
+            return False
         return case.get('kind') in ROUTER_KINDS and all(isinstance(case.get(k) or '', str) for k in ('extra', 'query', 'host', 'origin')) \
             and isinstance(case.get('settings') or {}, dict) and not (case['kind'] == 'append_slash' and not (case.get('settings') or {}).get('slash'))
     return case.get('cls') in classes()
@@ -1013,7 +1048,8 @@ def run_cases(ctx, cases, dist=None):
     obs_all = [impl(c) for c in cases]
     model = [None] * len(cases)
     if ctx.driver_path:
-        idx = [i for i, (o, h, hc) in enumerate(obs_all) if o['r'] != 'construct-failed']
+        idx = [i for i, (o, h, hc) in enumerate(obs_all) if o['r'] != 'construct-failed' and not has_surrogate(cases[i])
+               and not has_surrogate(h.get('exc')) and not has_surrogate(h.get('headers'))]
         for i, r in zip(idx, ctx.run_model([to_model(ctx, cases[i], obs_all[i][1], obs_all[i][0]) for i in idx])):
             model[i] = r
     mism, viol, agree = [], [], 0
@@ -1034,6 +1070,9 @@ def run_cases(ctx, cases, dist=None):
         kind = 'absent' if a is None else 'invalid' if type(create_accept_header(a)).__name__ == 'AcceptInvalidHeader' else \
             'q-values' if 'q=' in a else 'wildcard' if '*' in a else 'specific'
         bump(dist.setdefault('accept', {}), kind)
+        if has_surrogate(case):
+            bump(dist, 'lone_surrogate_cases_oracle_only')
+            bump(dist.setdefault('lone_surrogate_outcomes', {}), (o.get('ctype') or '') + ':' + o['r'] + (':' + o.get('type', '') if o['r'] == 'raised' else ''))
         for ft in features(case):
             bump(dist.setdefault('text_features', {}), ft)
         if case.get('body_template') is not None or (case.get('sub') or {}).get('body') is not None:
@@ -1068,12 +1107,12 @@ def escape_stream(ctx, n, dist):
     """the escape function, the JSON string codec and Template.substitute on their own, against webob / json / string"""
     from webob import html_escape
     rng = ctx.rng
-    texts = ATTACK + DOLLAR + NONASCII + CONTROL + JSONISH + [rand_text(rng) for _ in range(n)]
+    texts = [t for t in ATTACK + DOLLAR + NONASCII + CONTROL + JSONISH + [rand_text(rng) for _ in range(n)] if not has_surrogate(t)]
     reqs = [{'op': 'escape', 'text': t} for t in texts]
     tcases = []
     for _ in range(n):
         t = rand_template(rng, bad=rng.random() < 0.4) + rng.choice(['', '$', '$$', '${a', '$a}', '${a}b', '$a$b', '${_}', '$_1', '${A9_}x'])
-        env = [[k, rand_text(rng)] for k in rng.sample(TEMPLATE_VARS + ['a', 'b', '_', '_1', 'A9_'], rng.randint(0, 8))]
+        env = [[k, ''.join(c for c in rand_text(rng) if not 0xD800 <= ord(c) <= 0xDFFF)] for k in rng.sample(TEMPLATE_VARS + ['a', 'b', '_', '_1', 'A9_'], rng.randint(0, 8))]
         tcases.append({'op': 'template', 'text': t, 'env': env})
     if not ctx.driver_path:
         return [], 0
@@ -1152,7 +1191,8 @@ def search(ctx):
             for c in qs:
                 accepts.append('text/html;q=%s, application/json;q=%s, text/plain;q=%s' % (a, b, c))
     accepts += ['text/plain, text/html;q=0.5', 'text/plain', None, '*/*', 'text/plain, application/json;q=0.5']
-    details = ['<', '>', '&', '"', "'", 'é', '$', '$$', '${detail}', '$x', '<b>${br}</b>']
+    details = ['<', '>', '&', '"', "'", '\u00e9', '$', '$$', '${detail}', '$x', '<b>${br}</b>',
+               '\ud83d', '\ude00', '\ude00\ud83d', 'bob\ud83d', '\U0001f600', '\u2028', '\u2029', '\x00', '\x1b\x7f']
     viol, n = [], 0
     cases = [c for _, c in ctx.corpus() if valid_case(c)]
     for name in classes():
@@ -1164,7 +1204,7 @@ def search(ctx):
                     if name in MOVE_CLASSES:
                         c['location'] = '/x<y>'
                     cases.append(c)
-    cases += [{'mode': 'router_404', 'path': '/' + d, 'accept': a} for d in details for a in accepts]
+    cases += [{'mode': 'router_404', 'path': '/' + d, 'accept': a} for d in details if not has_surrogate(d) for a in accepts]
     # the Router's own paths over the debug-settings cube
     for dn in (False, True):
         for da in (False, True):
@@ -1217,7 +1257,7 @@ def replay(ctx, rep):
     if case is None or not valid_case(case):
         return {'violates': False, 'note': 'replay names broken obligations only', 'broken': rep.get('broken_obligations')}
     o, h, hc = impl(case)
-    mo = ctx.run_model([to_model(ctx, case, h, o)])[0] if ctx.driver_path and o['r'] != 'construct-failed' else None
+    mo = ctx.run_model([to_model(ctx, case, h, o)])[0] if ctx.driver_path and o['r'] != 'construct-failed' and not has_surrogate(case) and not has_surrogate(h.get('exc')) else None
     m, v, _ = check_case(ctx, case, mo, o, h, hc)
     sk_case, toks = tokenised(case)
     return {'case': case, 'impl': o, 'model': model_view(mo), 'spec': (mo or {}).get('spec'), 'skeleton': impl(sk_case)[0],
